@@ -126,7 +126,14 @@ func driveOps(c *Ctx) error {
 		pa0 := projectArgs(a0) // the operands as they report before any call is made on them
 		ia := digestOf(pa0)
 		rs := collect(reps*2, func(int) []cty.Value { return a0 })
-		rr := collect(reps, func(i int) []cty.Value { return concretizeArgs(aj, i) })
+		// (representation 6 is the float representation with a NEGATIVE zero: always included)
+		repIdx := func(i int) int {
+			if i == reps {
+				return 6
+			}
+			return i
+		}
+		rr := collect(reps+1, func(i int) []cty.Value { return concretizeArgs(aj, repIdx(i)) })
 		// mixed representations: every operand in a different one
 		rm := collect(reps, func(i int) []cty.Value {
 			out := make([]cty.Value, len(aj))
@@ -146,8 +153,8 @@ func driveOps(c *Ctx) error {
 		}
 		if allNum {
 			rp := []any{}
-			for i := 0; i < reps; i++ {
-				ai := concretizeArgs(aj, i)
+			for i := 0; i <= reps; i++ {
+				ai := concretizeArgs(aj, repIdx(i))
 				mp := 0
 				for _, v := range ai {
 					if p := int(v.AsBigFloat().Prec()); p > mp {
